@@ -435,8 +435,9 @@ def failing_learn(agent, case, batch, kind):
         raised = None
     except Exception as e:
         raised = f"{type(e).__name__}: {str(e)[:160]}"
-    changed = state_diff(before, full_state(agent, algo))
-    return {"kind": kind, "raised": raised, "changed": changed}
+    changed = state_diff(before, full_state(agent, algo))       # observation only (atomicity is not part of the property)
+    return {"kind": kind, "raised": raised, "changed": changed,
+            "targets_moved": [c for c in changed if c.startswith("target:")]}
 
 
 def call_learn(agent, case, batch, passed=None):
@@ -825,6 +826,7 @@ class C08(vlib.Driver):
                         obs["failed"].append(fr)
                         if fr["raised"] is None:
                             obs["accepted_malformed"] = True
+                        prev = snapshot(A, algo)      # the next successful step is judged from the state right before it
                         if k == 0:
                             torch.manual_seed(seed_k + 500)
                             failing_learn(A2, case, batch2, kind)   # the twin lives through the same history
@@ -1000,19 +1002,14 @@ class C08(vlib.Driver):
             return []           # learn() accepted the malformed batch: this is not a failed-call history (and not this property)
         pf, upd = self.update_steps(case, obs)
         tau = obs["tau"]
-        # (0) a learn() call that raises is a no-op: no parameter, target, optimiser state or phase counter may change
-        #     (the steps after it are then checked exactly like those of a history without the failed call)
+        # (0) failed learn() calls (malformed batch, caught by the caller) are outside the property's quantifier, except
+        #     that they are no learn STEP: they must not move any target, and they do not count for the policy-delay phase
+        #     (update_steps counts the successful calls only; the clauses below judge those)
         for fr in obs.get("failed", []):
-            if fr["raised"] is None:
-                continue        # the malformed batch was accepted: nothing to say about failed calls
-            if fr["changed"]:
-                what = sorted({c.split(":")[0] for c in fr["changed"]})
-                tag = "counter" if what == ["counter"] else ("partial-update" if any(w in what for w in ("online", "target", "optimizer")) else "state")
-                out.append(Violation("failed-learn", f"failed-learn:{algo}:{tag}",
-                                     f"a learn() call on a malformed batch ({fr['kind']}) before successful call {fr['before_step']} raised "
-                                     f"{fr['raised']!r} but did not leave the agent unchanged: {fr['changed'][:8]}"
-                                     f"{' ...' if len(fr['changed']) > 8 else ''} differ from before the call. A failed learn step must not "
-                                     f"advance the policy-delay phase or apply part of an update"))
+            if fr["raised"] is not None and fr["targets_moved"]:
+                out.append(Violation("soft", f"soft-failed-call:{algo}",
+                                     f"a learn() call that raised ({fr['kind']}: {fr['raised']!r}) before successful call {fr['before_step']} "
+                                     f"moved the target network(s) {fr['targets_moved']}: targets may only move by the tau formula at a learn step"))
                 return out
         for k, rec in enumerate(obs["steps"]):
             # (1) the minimised quantity is the defined loss with the Bellman target
